@@ -42,35 +42,43 @@ def final_record(p):
     return kw, spoiled
 
 
-def run(ctx):
+def rawcopy_parse(ctx, rule="C14.R1"):
+    """RawCopy._parse: tell, inner parse, tell, seek back, re-read -- the record it returns and where the stream ends."""
     M = ctx.model
     subcon = N.selfattr("subcon")
     # ---------------------------------------------------------------- R1
     fi, paths = own_method_paths(ctx, "RawCopy", "_parse")
     rets = [p for p in paths if p.returns]
-    ctx.ob("C14.R1", fi, len(rets) == 1, "RawCopy._parse has a single successful path", key="single path")
+    ctx.ob(rule, fi, len(rets) == 1, "RawCopy._parse has a single successful path", key="single path")
     for p in rets:
         t = Trace(p, STREAM)
         kinds = [e.kind for e in p.events if e.kind in ("TELL", "SUB", "SEEK", "READ", "WRITE", "READALL", "RAWIO")]
-        ctx.ob("C14.R1", fi, kinds == ["TELL", "SUB", "TELL", "SEEK", "READ"], "tell, inner parse, tell, seek back, re-read (got %s)" % kinds, key="shape")
+        ctx.ob(rule, fi, kinds == ["TELL", "SUB", "TELL", "SEEK", "READ"], "tell, inner parse, tell, seek back, re-read (got %s)" % kinds, key="shape")
         if kinds != ["TELL", "SUB", "TELL", "SEEK", "READ"]:
             continue
         tell1, sub, tell2, seek, read = [e for e in p.events if e.kind in ("TELL", "SUB", "SEEK", "READ")]
-        ctx.ob("C14.R1", fi, all(e["stream"] == STREAM for e in (tell1, sub, tell2, seek, read)) and sub["target"] == subcon and sub["m"] == "_parsereport",
+        ctx.ob(rule, fi, all(e["stream"] == STREAM for e in (tell1, sub, tell2, seek, read)) and sub["target"] == subcon and sub["m"] == "_parsereport",
                "all five steps use the incoming stream and the wrapped construct", key="stream identity")
         d = [k for k in t.deltas]
         D = d[0] if len(d) == 1 else None
         p0 = P0(STREAM)
         kw = kwof(p.retval)
-        ctx.ob("C14.R1", fi, set(kw) == {"data", "value", "offset1", "offset2", "length"}, "the result has exactly data, value, offset1, offset2, length", key="fields")
-        ctx.ob("C14.R1", fi, t.val(kw.get("offset1")) == p0, "offset1 is the entry position", key="offset1")
-        ctx.ob("C14.R1", fi, D is not None and t.val(kw.get("offset2")) == N.mk_add(p0, D), "offset2 is the position right after the inner parse", key="offset2")
-        ctx.ob("C14.R1", fi, D is not None and t.val(kw.get("length")) == D, "length == offset2 - offset1", key="length")
-        ctx.ob("C14.R1", fi, kw.get("value") == sub["res"], "value is the inner result", key="value")
-        ctx.ob("C14.R1", fi, kw.get("data") == read["res"] and t.pos_before(read) == p0 and D is not None and t.val(read["length"]) == D,
+        ctx.ob(rule, fi, set(kw) == {"data", "value", "offset1", "offset2", "length"}, "the result has exactly data, value, offset1, offset2, length", key="fields")
+        ctx.ob(rule, fi, t.val(kw.get("offset1")) == p0, "offset1 is the entry position", key="offset1")
+        ctx.ob(rule, fi, D is not None and t.val(kw.get("offset2")) == N.mk_add(p0, D), "offset2 is the position right after the inner parse", key="offset2")
+        ctx.ob(rule, fi, D is not None and t.val(kw.get("length")) == D, "length == offset2 - offset1", key="length")
+        ctx.ob(rule, fi, kw.get("value") == sub["res"], "value is the inner result", key="value")
+        ctx.ob(rule, fi, kw.get("data") == read["res"] and t.pos_before(read) == p0 and D is not None and t.val(read["length"]) == D,
                "data is the re-read of exactly offset2-offset1 bytes starting at offset1", key="data")
-        ctx.ob("C14.R1", fi, D is not None and t.final == N.mk_add(p0, D), "the stream ends at offset2 (got %s)" % N.show(t.final), key="end position")
+        ctx.ob(rule, fi, D is not None and t.final == N.mk_add(p0, D), "the stream ends at offset2 (got %s)" % N.show(t.final), key="end position")
+
+
+def run(ctx):
+    rawcopy_parse(ctx)
     ctx.floor("C14.R1", 9)
+    M = ctx.model
+    S = summariser(ctx)
+    subcon = N.selfattr("subcon")
 
     # ---------------------------------------------------------------- R2
     fi, paths = own_method_paths(ctx, "RawCopy", "_build")
